@@ -15,6 +15,8 @@ import DsdVerif.Gen.PyIupac
 import DsdVerif.Spec.PyComplexS
 import DsdVerif.DriverKernel
 import DsdVerif.DriverIdent
+import DsdVerif.DriverIdent2
+import DsdVerif.DriverSingleton
 import DsdVerif.DriverLegacy
 import DsdVerif.Model.Dlc
 
@@ -630,7 +632,8 @@ def stepD (d : DState) (line : String) : DState × String :=
       | none => (d, "err Fault dead-handle")
     | none => (d, "bad-op")
   | _ =>
-    match (DriverKernel.stepKernel line).orElse (fun _ => DriverIdent.stepIdent line) with
+    match (((DriverKernel.stepKernel line).orElse (fun _ => DriverIdent.stepIdent line)).orElse (fun _ => DriverIdent2.stepIdent2 line)).orElse
+        (fun _ => DriverSingleton.stepSingleton line) with
     | some out => (d, out)
     | none =>
       match DriverLegacy.stepLegacy d.lg line with
